@@ -57,7 +57,7 @@ SPEC = {
                   "the model enables an acknowledgement only when the command is in the log below what its committer has applied "
                   "(raft_ack_visible_on_committer, raft_ack_in_committer_pinset); a shutdown that takes its final snapshot with nothing committed "
                   "in between (shutdownLock) leaves every op acknowledged at the member in OfflineState and in the state restored from disk "
-                  "(raft_shutdown_loses_nothing_acknowledged; run-time form: pass 3 of spec_okb at OStopped)",
+                  "(raft_shutdown_loses_nothing_acknowledged; at run time the model's OStopped step is enabled only then, and raft_stop_monitor_sound reads the monitor's clause back on OfflineState and on the restarted member)",
     "level_note": "partial: commitment, durability of acknowledged entries and the single committed sequence are hashicorp/raft's "
                   "(assumed by the model, sampled by the rigs); model tied to code by differential testing",
     "assumptions": ["hashicorp/raft applies committed entries in index order (again from the snapshot's index after an install, which may be "
